@@ -109,8 +109,9 @@ def _wrap(v, ty):
 
 class Interp:
     def __init__(self, prog, hooks=None, fields=None, max_steps=200000, summarize_loops=False,
-                 globals_=None, sym_cap=None, int_overflow=False):
+                 globals_=None, sym_cap=None, int_overflow=False, max_depth=8):
         self.prog = prog
+        self.max_depth = max_depth
         self.sym_cap = sym_cap            # symbolic values are assumed below constants >= this
         self.assumed = set()
         self.int_overflow = int_overflow  # raise IntOverflow when int arithmetic leaves 32 bits
@@ -125,7 +126,7 @@ class Interp:
 
     # -- entry -------------------------------------------------------------------
     def call(self, func, args, depth=0):
-        if depth > 8:
+        if depth > self.max_depth:
             raise Unsupported("call depth")
         env = {}
         for p, a in zip(func.params, args):
@@ -408,6 +409,15 @@ class Interp:
                 new = old + d if isinstance(old, int) else (old.add(d) if isinstance(old, Ptr) else OPAQUE)
                 b[t["field"]] = new
                 return new if e["op"].startswith("pre") else old
+        while t["k"] == "cast":
+            t = t["e"]
+        if t["k"] == "un" and t["op"] == "*":
+            b = self.expr(f, t["e"], env, depth)
+            if isinstance(b, dict) and "__deref__" in b:
+                old = b["__deref__"]
+                new = old + d if isinstance(old, int) else (old.add(d) if isinstance(old, Ptr) else OPAQUE)
+                b["__deref__"] = new
+                return new if e["op"].startswith("pre") else old
         return OPAQUE
 
     def _assign(self, f, lv, val, env, depth):
@@ -424,6 +434,12 @@ class Interp:
             b = self.expr(f, lv["base"], env, depth)
             if isinstance(b, dict):
                 b[lv["field"]] = val
+        elif lv["k"] == "un" and lv["op"] == "*":
+            b = self.expr(f, lv["e"], env, depth)
+            if isinstance(b, dict) and "__deref__" in b:
+                b["__deref__"] = val            # a pointer to a variable (char **pat)
+        elif lv["k"] == "cast":
+            self._assign(f, lv["e"], val, env, depth)
         # stores through other pointers have no effect on the abstraction
 
     def _bin(self, f, e, env, depth):
